@@ -23,6 +23,10 @@ ALL = "std::iter::Iterator::all"
 OPT_MAP = "std::option::Option::<T>::map"
 EXTEND = "std::iter::Extend::extend"
 ITER_MAP = "std::iter::Iterator::map"
+FOLD = "std::iter::Iterator::fold"
+TRY_FOLD = "std::iter::Iterator::try_fold"
+COLLECT = "std::iter::Iterator::collect"
+UNZIP = "std::iter::Iterator::unzip"
 LOOP_MODES = {FOR_EACH: "for_each", TRY_FOR_EACH: "try", FIND: "find", ANY: "any", ALL: "all"}
 LN = 0
 
@@ -220,6 +224,17 @@ def _map_places(blk, fn):
         t["ops"] = [op(x) for x in t["ops"]]
 
 
+def _passthrough_stmt(st, ret_local):
+    """statements that cannot change what a closure/helper returns: reads of a discriminant and constant stores into other locals
+    (drop flags)"""
+    r = st.get("r", {})
+    if r.get("k") == "discr":
+        return True
+    if st.get("k") == "assign" and r.get("k") == "use" and r.get("a", {}).get("k") == "const" and isinstance(st.get("p"), int) and st.get("p") != ret_local:
+        return True
+    return st.get("k") not in ("assign",) and "r" not in st
+
+
 def _local_of(op):
     if op.get("k") in ("copy", "move") and isinstance(op["p"], int):
         return op["p"]
@@ -324,6 +339,8 @@ def desugar(d):
     # a Vec::push callee descriptor to reuse (any call site of the program)
     PUSH = next((b["t"]["f"] for f in d["fns"] if f.get("mir") for b in f["mir"]["blocks"]
                  if b["t"]["k"] == "call" and b["t"]["f"].get("path") == "std::vec::Vec::<T, A>::push"), None)
+    VEC_NEW = next((b["t"]["f"] for f in d["fns"] if f.get("mir") for b in f["mir"]["blocks"]
+                    if b["t"]["k"] == "call" and b["t"]["f"].get("path") == "std::vec::Vec::<T>::new"), None)
     types.append({"s": "std::option::Option<{item}>", "k": "adt", "path": "std::option::Option", "did": None, "args": [],
                   "variants": ["None", "Some"], "discrs": ["0", "1"], "ak": "enum"})
     OPT = len(types) - 1
@@ -343,13 +360,34 @@ def desugar(d):
             guard += 1
             for bi, blk in enumerate(m["blocks"]):
                 t = blk["t"]
-                if t["k"] != "call" or (t["f"].get("path") not in LOOP_MODES and t["f"].get("path") not in (OPT_MAP, EXTEND)) or len(t["args"]) != 2 \
-                        or t.get("t") is None or blk.get("c"):
+                is_fold = t["k"] == "call" and t["f"].get("path") in (FOLD, TRY_FOLD) and len(t["args"]) == 3
+                is_try_fold = is_fold and t["f"].get("path") == TRY_FOLD
+                is_collect = False
+                if t["k"] == "call" and t["f"].get("path") in (COLLECT, UNZIP) and len(t["args"]) == 1 and t.get("t") is not None and not blk.get("c") \
+                        and PUSH is not None and VEC_NEW is not None and isinstance(t.get("dest"), int):
+                    # vec = iter.map(closure).collect() / (a, b) = iter.map(closure).unzip(): only into plain Vecs (collecting into
+                    # a Result/Option short-circuits and is left alone)
+                    dty = types[m["locals"][t["dest"]]]
+                    if t["f"]["path"] == COLLECT:
+                        vec_tys = [m["locals"][t["dest"]]] if dty.get("k") == "adt" and dty.get("path") == "std::vec::Vec" else None
+                    else:
+                        vec_tys = list(dty.get("ts", [])) if dty.get("k") == "tuple" and len(dty.get("ts", [])) == 2 and \
+                            all(types[x].get("k") == "adt" and types[x].get("path") == "std::vec::Vec" for x in dty["ts"]) else None
+                    src = _local_of(t["args"][0])
+                    if vec_tys and src is not None:
+                        ms = [(i2, b2) for i2, b2 in enumerate(m["blocks"]) if b2["t"]["k"] == "call" and b2["t"].get("dest") == src]
+                        uses = sum(1 for b2 in m["blocks"] for a in (b2["t"].get("args") or []) if _local_of(a) == src)
+                        if len(ms) == 1 and uses == 1 and ms[0][1]["t"]["f"].get("path") == ITER_MAP and len(ms[0][1]["t"]["args"]) == 2 \
+                                and ms[0][1]["t"].get("t") is not None and not any(st.get("p") == src for b2 in m["blocks"] for st in b2["s"]):
+                            is_collect = True
+                            collect_map_site = ms[0][1]
+                if t["k"] != "call" or (t["f"].get("path") not in LOOP_MODES and t["f"].get("path") not in (OPT_MAP, EXTEND) and not is_fold and not is_collect) \
+                        or (len(t["args"]) != 2 and not is_fold and not is_collect) or t.get("t") is None or blk.get("c"):
                     continue
-                cl = _local_of(t["args"][1])
+                cl = _local_of(collect_map_site["t"]["args"][1]) if is_collect else _local_of(t["args"][2 if is_fold else 1])
                 if cl is None:
                     continue
-                it_op = t["args"][0]
+                it_op = collect_map_site["t"]["args"][0] if is_collect else t["args"][0]
                 map_site = None
                 if t["f"]["path"] == EXTEND:
                     # vec.extend(iter.map(closure)): the argument is the single-use result of Iterator::map, the receiver a Vec
@@ -369,7 +407,7 @@ def desugar(d):
                 if cdef is None:
                     continue
                 cf = by_did.get(cdef[2])
-                if cf is None or not cf.get("mir") or cf["mir"]["argc"] != 2:
+                if cf is None or not cf.get("mir") or cf["mir"]["argc"] != (3 if is_fold else 2):
                     continue
                 cm = cf["mir"]
                 if t["f"]["path"] == OPT_MAP:
@@ -387,7 +425,7 @@ def desugar(d):
                     n_sites += 1
                     changed = True
                     break
-                mode = LOOP_MODES.get(t["f"]["path"], "extend")
+                mode = "collect" if is_collect else "try" if is_try_fold else "fold" if is_fold else LOOP_MODES.get(t["f"]["path"], "extend")
                 is_try = mode == "try"
                 L = len(m["locals"])
                 m["locals"] = m["locals"] + list(cm["locals"])
@@ -396,6 +434,9 @@ def desugar(d):
                     m["locals"].append(ty)
                     return len(m["locals"]) - 1
                 it_ty = t["f"]["args"][0]["t"] if t["f"].get("args") else 0
+                if is_collect:
+                    it_ty = collect_map_site["t"]["f"]["args"][0]["t"] if collect_map_site["t"]["f"].get("args") else 0
+                    collect_map_site["t"] = {"k": "goto", "t": collect_map_site["t"]["t"], "ln": collect_map_site["t"].get("ln", LN)}
                 if map_site is not None:
                     it_ty = map_site["t"]["f"]["args"][0]["t"] if map_site["t"]["f"].get("args") else 0
                     vec_op = dict(t["args"][0], k="copy")
@@ -407,6 +448,9 @@ def desugar(d):
                 DSC = new_local(isize)
                 ENV, ITEM, RET = L + 1, L + 2, L + 0
                 item_ty = cm["locals"][2]
+                if is_fold:
+                    ACC, ITEM = L + 2, L + 3
+                    item_ty = cm["locals"][3]
                 B = len(m["blocks"])          # closure blocks go to B .. B+n-1
                 n = len(cm["blocks"])
                 H, S, B0, CRET, DONE, UNR = B + n, B + n + 1, B + n + 2, B + n + 3, B + n + 4, B + n + 5
@@ -418,6 +462,8 @@ def desugar(d):
                     {"k": "assign", "p": IT, "r": {"k": "use", "a": it_op}, "ln": ln},
                     {"k": "assign", "p": ENV, "r": _env_rvalue(types, cm, cl), "ln": ln},
                 ]
+                if is_fold:
+                    blk["s"] = blk["s"] + [{"k": "assign", "p": ACC, "r": {"k": "use", "a": t["args"][1]}, "ln": ln}]
                 blk["t"] = {"k": "goto", "t": H, "ln": ln}
                 # 2. closure body
                 for cb in cm["blocks"]:
@@ -466,6 +512,43 @@ def desugar(d):
                     m["blocks"].append({"s": [{"k": "assign", "p": dest, "r": miss, "ln": ln}], "t": {"k": "goto", "t": target, "ln": ln}, "c": False})     # DONE
                     m["blocks"].append({"s": [], "t": {"k": "unreachable", "ln": ln}, "c": False})                                                         # UNR
                     m["blocks"].append({"s": [{"k": "assign", "p": dest, "r": hit, "ln": ln}], "t": {"k": "goto", "t": target, "ln": ln}, "c": False})      # FOUND
+                elif mode == "collect":
+                    # CRET: push the mapped value(s); DONE: the vector(s) are the result.  The vectors are created at the call site.
+                    VS = [new_local(vt) for vt in vec_tys]
+                    UNITS = [new_local(UNIT_TY) for _ in vec_tys]
+                    RVS = [new_local(vt) for vt in vec_tys]
+                    # creation: chain of Vec::new calls in fresh blocks placed after the fixed tail (CRET.., DONE, UNR)
+                    ntail = len(vec_tys)          # CRET blocks
+                    # layout: CRET_0 .. CRET_{k-1} (pushes), DONE, UNR, NEW_0 .. NEW_{k-1}
+                    k = len(vec_tys)
+                    CR = [B + n + 3 + i for i in range(k)]
+                    DONE_C, UNR_C = B + n + 3 + k, B + n + 4 + k
+                    NEWB = [B + n + 5 + k + i for i in range(k)]
+                    # fix the targets fixed earlier under the default layout (H, S, B0 are unchanged; CRET=B+n+3 is CR[0])
+                    m["blocks"][S]["t"]["ts"] = [[0, DONE_C], [1, B0]]
+                    m["blocks"][S]["t"]["else"] = UNR_C
+                    for i in range(k):
+                        val = {"k": "move", "p": RET} if k == 1 else {"k": "move", "p": {"l": RET, "p": [{"f": i, "n": str(i), "t": 0}]}}
+                        m["blocks"].append({"s": [{"k": "assign", "p": RVS[i], "r": {"k": "ref", "mut": True, "p": VS[i]}, "ln": ln}],
+                                            "t": {"k": "call", "f": copy.deepcopy(PUSH), "args": [{"k": "move", "p": RVS[i]}, val], "dest": UNITS[i],
+                                                  "t": CR[i + 1] if i + 1 < k else H, "fl": ln, "ln": ln}, "c": False})                                 # CRET_i
+                    res = {"k": "use", "a": {"k": "move", "p": VS[0]}} if k == 1 else {"k": "agg", "ops": [{"k": "move", "p": v} for v in VS], "ak": "tuple"}
+                    m["blocks"].append({"s": [{"k": "assign", "p": dest, "r": res, "ln": ln}], "t": {"k": "goto", "t": target, "ln": ln}, "c": False})     # DONE
+                    m["blocks"].append({"s": [], "t": {"k": "unreachable", "ln": ln}, "c": False})                                                       # UNR
+                    # the vector is *defined* as the collection of the iterator (a synthetic `collect(iter)` call, so that its term still
+                    # names what it was collected from); the loop below then shows how each element is produced
+                    collf = {"path": t["f"]["path"], "full": "<desugared as std::iter::Iterator>::%s" % t["f"]["path"].split("::")[-1], "did": None,
+                             "args": [], "name": t["f"]["path"].split("::")[-1], "trait": "std::iter::Iterator"}
+                    for i in range(k):
+                        m["blocks"].append({"s": [], "t": {"k": "call", "f": copy.deepcopy(collf), "args": [dict(it_op, k="copy") if it_op.get("k") == "move" else it_op],
+                                                           "dest": VS[i], "t": NEWB[i + 1] if i + 1 < k else H, "fl": ln, "ln": ln}, "c": False})                        # NEW_i
+                    blk["t"] = {"k": "goto", "t": NEWB[0], "ln": ln}
+                elif mode == "fold":
+                    m["blocks"].append({"s": [{"k": "assign", "p": ACC, "r": {"k": "use", "a": {"k": "move", "p": RET}}, "ln": ln}],
+                                        "t": {"k": "goto", "t": H, "ln": ln}, "c": False})                                                              # CRET
+                    m["blocks"].append({"s": [{"k": "assign", "p": dest, "r": {"k": "use", "a": {"k": "move", "p": ACC}}, "ln": ln}],
+                                        "t": {"k": "goto", "t": target, "ln": ln}, "c": False})                                                         # DONE
+                    m["blocks"].append({"s": [], "t": {"k": "unreachable", "ln": ln}, "c": False})                                                     # UNR
                 elif not is_try:
                     m["blocks"].append({"s": [], "t": {"k": "goto", "t": H, "ln": ln}, "c": False})                                                    # CRET
                     m["blocks"].append({"s": [{"k": "assign", "p": dest, "r": {"k": "agg", "ops": [], "ak": "tuple"}, "ln": ln}],
@@ -475,23 +558,25 @@ def desugar(d):
                     BR = new_local(CF)
                     DS2 = new_local(isize)
                     SW2, BRK = UNR + 1, UNR + 2
+                    ACCSET = UNR + 3
                     branchf = {"path": "std::ops::Try::branch", "full": "<desugared as std::ops::Try>::branch", "did": None, "args": [],
                                "name": "branch", "trait": "std::ops::Try"}
                     m["blocks"].append({"s": [], "t": {"k": "call", "f": branchf, "args": [{"k": "move", "p": RET}], "dest": BR, "t": SW2,
                                                        "fl": [ln if isinstance(ln, int) else ln[0], "desugar:QuestionMark"], "ln": ln}, "c": False})   # CRET
+                    done_payload = {"k": "move", "p": ACC} if is_try_fold else {"k": "const", "ty": 8, "d": "()"}
                     if thread is not None:
                         x, cont, brk = thread
-                        m["blocks"].append({"s": [{"k": "assign", "p": x, "r": {"k": "agg", "ops": [{"k": "const", "ty": 8, "d": "()"}], "ak": "adt",
+                        m["blocks"].append({"s": [{"k": "assign", "p": x, "r": {"k": "agg", "ops": [done_payload], "ak": "adt",
                                                                                    "path": "std::ops::ControlFlow", "did": None, "vi": 0, "vn": "Continue", "fields": ["0"], "args": []}, "ln": ln}],
                                             "t": {"k": "goto", "t": cont, "ln": ln}, "c": False})                                                       # DONE
                     else:
                         outf = {"path": "std::ops::Try::from_output", "full": "<desugared as std::ops::Try>::from_output", "did": None, "args": [],
                                 "name": "from_output", "trait": "std::ops::Try"}
-                        m["blocks"].append({"s": [], "t": {"k": "call", "f": outf, "args": [{"k": "const", "ty": 8, "d": "()"}], "dest": dest, "t": target,
+                        m["blocks"].append({"s": [], "t": {"k": "call", "f": outf, "args": [done_payload], "dest": dest, "t": target,
                                                            "fl": ln, "ln": ln}, "c": False})                                                          # DONE
                     m["blocks"].append({"s": [], "t": {"k": "unreachable", "ln": ln}, "c": False})                                                     # UNR
                     m["blocks"].append({"s": [{"k": "assign", "p": DS2, "r": {"k": "discr", "p": BR}, "ln": ln}],
-                                        "t": {"k": "switch", "d": {"k": "move", "p": DS2}, "ts": [[0, H], [1, BRK]], "else": UNR, "ln": ln}, "c": False})  # SW2
+                                        "t": {"k": "switch", "d": {"k": "move", "p": DS2}, "ts": [[0, ACCSET if is_try_fold else H], [1, BRK]], "else": UNR, "ln": ln}, "c": False})  # SW2
                     resid = {"k": "move", "p": {"l": BR, "p": [{"dc": 1, "n": "Break"}, {"f": 0, "n": "0", "t": 0}]}}
                     if thread is not None:
                         x, cont, brk = thread
@@ -502,6 +587,9 @@ def desugar(d):
                         frf = {"path": "std::ops::FromResidual::from_residual", "full": "<desugared as std::ops::FromResidual>::from_residual", "did": None,
                                "args": [], "name": "from_residual", "trait": "std::ops::FromResidual"}
                         m["blocks"].append({"s": [], "t": {"k": "call", "f": frf, "args": [resid], "dest": dest, "t": target, "fl": ln, "ln": ln}, "c": False})  # BRK
+                if is_try_fold:
+                    m["blocks"].append({"s": [{"k": "assign", "p": ACC, "r": {"k": "use", "a": {"k": "move", "p": {"l": BR, "p": [{"dc": 0, "n": "Continue"}, {"f": 0, "n": "0", "t": cm["locals"][2]}]}}}, "ln": ln}],
+                                        "t": {"k": "goto", "t": H, "ln": ln}, "c": False})                                                              # ACCSET
                 # path-precise exits of a try_for_each body: a block that builds the error with from_residual leaves the loop
                 # as an error directly; a block that builds Ok(())/Continue(())/Some(()) continues with the next item.
                 if is_try:
@@ -511,7 +599,7 @@ def desugar(d):
                     while grew:
                         grew = False
                         for i, cb in enumerate(cm["blocks"]):
-                            if (B + i) in rb_set or any(st.get("r", {}).get("k") != "discr" for st in cb["s"]):
+                            if (B + i) in rb_set or any(not _passthrough_stmt(st, 0) for st in cb["s"]):
                                 continue
                             ct = cb["t"]
                             if ct["k"] in ("goto", "drop") and (ct["t"] + B) in rb_set:
@@ -534,7 +622,21 @@ def desugar(d):
                             last = X["s"][-1]
                             r = last.get("r", {})
                             if last.get("p") == RET and r.get("k") == "agg" and r.get("ak") == "adt" and r.get("vn") in ("Ok", "Continue", "Some"):
+                                if is_try_fold:
+                                    if len(r.get("ops", [])) != 1:
+                                        continue
+                                    X["s"] = X["s"][:-1] + [{"k": "assign", "p": ACC, "r": {"k": "use", "a": r["ops"][0]}, "ln": last.get("ln", ln)}]
                                 X["t"] = {"k": "goto", "t": H, "ln": ln}
+                            elif last.get("p") == RET and r.get("k") == "agg" and r.get("ak") == "adt" and r.get("vn") in ("Err", "Break", "None"):
+                                # an explicit `return Err(e)` / `Err(e)` tail value of the closure body leaves the loop as that error
+                                if thread is not None:
+                                    x, cont, brk = thread
+                                    X["s"] = X["s"] + [{"k": "assign", "p": x, "r": {"k": "agg", "ops": [{"k": "move", "p": RET}], "ak": "adt", "path": "std::ops::ControlFlow",
+                                                                                      "did": None, "vi": 1, "vn": "Break", "fields": ["0"], "args": []}, "ln": ln}]
+                                    X["t"] = {"k": "goto", "t": brk, "ln": ln}
+                                else:
+                                    X["s"] = X["s"] + [{"k": "assign", "p": dest, "r": {"k": "use", "a": {"k": "move", "p": RET}}, "ln": ln}]
+                                    X["t"] = {"k": "goto", "t": target, "ln": ln}
                 # names of the closure's variables (item name etc.) are kept for messages
                 for v in cm.get("vars", []):
                     m["vars"].append({"n": v["n"], "p": _remap_place(v["p"], L)})
